@@ -456,7 +456,7 @@ def run_case(out, m, sname, lab, kind, dim, an, bn, blab, ub, vb, mode, tier, nk
                     break
         # threaded
         if n_c % 4 == 1:
-            for nth in (2, 3):
+            for nth in (1, 2, 3):
                 At = BilinearForm(integrand, dtype=dtype, nthreads=nth).assemble(ub, vb, f=fval.copy(), g=garr.copy(), s=sval)
                 if At.shape != A.shape or np.abs((At - A).toarray()).max() > 1e-14 * (1 + np.abs(Ad).max()):
                     bad('threaded', f"nthreads={nth} differs from serial assembly")
@@ -569,6 +569,17 @@ def run_case(out, m, sname, lab, kind, dim, an, bn, blab, ub, vb, mode, tier, nk
                 pass
             except Exception as e:
                 bad('interpolate-dtype-exception', repr(e))
+        # a functional built without dtype keeps what its integrand returns (a complex integrand gives a complex scalar)
+        if n_c == 0:
+            try:
+                Jc1 = Functional(lambda w: (1.0 + 2.0j) * (1 + w.x[0]) * w['g']).assemble(vb, g=DiscreteField(garr))
+                Jc2 = Functional(lambda w: (1.0 + 2.0j) * (1 + w.x[0]) * w['g'], dtype=np.complex128).assemble(vb, g=DiscreteField(garr))
+                out.ev()
+                if abs(Jc1 - Jc2) > 1e-13 * (1 + abs(Jc2)):
+                    bad('functional-default-dtype', f"Functional without dtype on a complex integrand gives {Jc1!r}, with dtype=complex "
+                        f"{Jc2!r}")
+            except Exception as e:
+                bad('functional-default-dtype-exception', repr(e))
         # vector- and tensor-valued functionals: every component is the integral of that component
         if n_c == 0:
             try:
